@@ -47,6 +47,7 @@ pub struct Aggregate {
     pub counters: BTreeMap<String, u64>,
     pub sets: BTreeMap<String, HashSet<u64>>,
     pub log_digest: u64,
+    pub case_digests: Vec<(u64, u64)>,
     pub violations: Vec<(u64, String, String, String)>, // index, class, detail, raw path
     pub killed: Vec<(u64, String)>,
     pub vacuous_reasons: BTreeMap<String, u64>,
@@ -68,6 +69,7 @@ impl Aggregate {
             self.sets.entry(k).or_default().extend(v);
         }
         self.log_digest = self.log_digest.wrapping_add(r.log_digest);
+        self.case_digests.push((r.index, r.log_digest));
         if r.status == "vacuous" {
             let why = r.detail.clone().unwrap_or_default();
             let key = crate::run::truncate(
